@@ -20,7 +20,7 @@ def cutChunks : Bytes → List Nat → List Bytes
 def frameCmd : List String → String
   | ["dgram", h] =>
     match decHex h with
-    | some p => let ls := datagramLines p; s!"{linesStr ls} lines={ls.length}"
+    | some p => let ls := datagramLines p; s!"{linesStr ls} lines={ls.length} queued={ls.length} qsame=1"
     | none => "bad-op"
   | "tcp" :: h :: sizes =>
     match decHex h with
